@@ -961,10 +961,10 @@ def c17(tier, seed):
     ck = Check("C17", tier, seed)
     q = ck.quick
     # saturated demand: direction and count are deterministic; TLC recomputes the momentum signal exactly
-    ck.traces_stage("momentum_saturated", "record_agents", {"kinds": ["momentum"], "saturate": True, "max_steps": 18, "probs": [0.0, 0.3], "sigmas": [1.0]},
+    ck.traces_stage("momentum_saturated", "record_agents", {"kinds": ["momentum"], "saturate": True, "max_steps": 18, "probs": [0.0, 0.3], "sigmas": [1.0, 10.0]},
                     files=8 if q else 32, runs=100 if q else 200, ops=0, trace_spec="AgentTrace", consts={})
     # mirrored pairs: the reflected price path must give the reflected order flow
-    ck.traces_stage("momentum_mirror", "record_agents", {"kinds": ["momentum"], "mirror": True, "saturate": True, "max_steps": 18, "probs": [0.0, 0.3], "sigmas": [1.0]},
+    ck.traces_stage("momentum_mirror", "record_agents", {"kinds": ["momentum"], "mirror": True, "saturate": True, "max_steps": 18, "probs": [0.0, 0.3], "sigmas": [1.0, 10.0]},
                     files=8 if q else 32, runs=60 if q else 120, ops=0, trace_spec="AgentTrace", consts={})
     return ck.finish("model_checking", LEVEL_TEXT, AGENT_RULE + "update calls that queued at least one instruction",
                      ("momentum_saturated.updates_with_instructions", "momentum_mirror.updates_with_instructions"))
